@@ -42,7 +42,7 @@ var fatalErrs = map[int]error{1: errors.New("fatal-1"), 2: errors.New("fatal-2")
 
 type scriptedRaw struct{ v int }
 
-func (r *scriptedRaw) Raw() interface{}  { return r.v }
+func (r *scriptedRaw) Raw() interface{} { return r.v }
 func (r *scriptedRaw) Checksum() string { return fmt.Sprintf("sum-%d", r.v) }
 
 type scriptedIngester struct {
